@@ -74,7 +74,7 @@ def generate_source_code(docstring, parsed):
             f'The {start_rule!r} rule must not have the "ignore" modifier.'
         )
 
-    if start_rule is None and not _inherits_start_rule(parsed.extends):
+    if start_rule is None and parsed.extends is None:
         # Without a rule called "start", the first rule that is not ignored is
         # the start rule (and not an "ignore" declaration that comes first).
         for node in rules:
@@ -163,14 +163,10 @@ def generate_source_code(docstring, parsed):
     if start_rule is not None:
         start_name = ex.implementation_name(start_rule.name)
     else:
-        start_name = None
-        ancestor = parsed.extends
-        while start_name is None and ancestor is not None:
-            for stmt in ancestor.body:
-                if hasattr(stmt, 'name') and stmt.name.lower() == 'start':
-                    start_name = f'_ctx.{ex.implementation_name(stmt.name)}'
-                    break
-            ancestor = ancestor.extends
+        # A derived grammar that has no rule called "start" starts where its
+        # parent starts.
+        inherited = _inherited_start_rule(parsed.extends)
+        start_name = inherited and f'_ctx.{ex.implementation_name(inherited)}'
 
     if start_name is None:
         start_name = ex.implementation_name(rules[0].name)
@@ -330,13 +326,24 @@ def _is_expression_constructor(name):
     )
 
 
-def _inherits_start_rule(ancestor):
-    while ancestor is not None:
-        for stmt in ancestor.body:
-            if hasattr(stmt, 'name') and stmt.name.lower() == 'start':
-                return True
-        ancestor = ancestor.extends
-    return False
+def _inherited_start_rule(ancestor):
+    # The name of the rule that the "parse" function of this ancestor uses.
+    if ancestor is None:
+        return None
+
+    for stmt in ancestor.body:
+        if hasattr(stmt, 'name') and stmt.name.lower() == 'start':
+            return stmt.name
+
+    inherited = _inherited_start_rule(ancestor.extends)
+    if inherited is not None or ancestor.extends is not None:
+        return inherited
+
+    for stmt in ancestor.body:
+        if hasattr(stmt, 'name') and not getattr(stmt, 'is_ignored', False):
+            return stmt.name
+
+    return None
 
 
 class _Flags:
